@@ -2,7 +2,10 @@
 //! `<name>.ops` (requests for the Lean model driver), `<name>.real` (the real code's responses)
 //! and `<name>.stats.json` (input distribution, oracle failures).
 mod alloc;
+mod conc;
+mod concgen;
 mod crash;
+mod gate;
 mod keys;
 mod out;
 mod pure;
@@ -56,6 +59,19 @@ fn main() {
             let thorough = std::env::var("VERIF_TIER").map_or(false, |t| t == "thorough");
             let (m, p): (crash::Mode, &'static str) = match slice.as_str() { "c09" => (crash::Mode::PowerLoss, "C09"), "c20" => (crash::Mode::Kill, "C20"), "c06" => (crash::Mode::Kill, "C06"), "c08crash" => (crash::Mode::Kill, "C08"), _ => (crash::Mode::Kill, "C03") };
             crash::crashes(&mut s, &mut rng, n, m, p, thorough);
+            s.finish();
+            out = std::mem::take(&mut s.out);
+        }
+        "c04" | "c05" | "c15" | "c07conc" | "c08conc" | "c13conc" => {
+            let mut s = sess::Sess::new(&work);
+            let p: &'static str = match slice.as_str() { "c04" => "C04", "c05" => "C05", "c15" => "C15", "c07conc" => "C07", "c08conc" => "C08", _ => "C13" };
+            concgen::conc_cases(&mut s, &mut rng, n, p);
+            s.finish();
+            out = std::mem::take(&mut s.out);
+        }
+        "c19" | "c11" => {
+            let mut s = sess::Sess::new(&work);
+            if slice == "c19" { gate::c19(&mut s, &mut rng, n); } else { gate::c11(&mut s, &mut rng, n); }
             s.finish();
             out = std::mem::take(&mut s.out);
         }
